@@ -4,8 +4,8 @@ namespace HailVerif.BatchDsl
 
 /-! ### paths -/
 
-/-- a string is cut uniquely at its first `/` -/
-theorem split_at_slash : ∀ (a a' b b' : Str), '/' ∉ a → '/' ∉ a' → a ++ '/' :: b = a' ++ '/' :: b' → a = a' ∧ b = b'
+/-- a string is cut uniquely at its first occurrence of `x` -/
+theorem split_at_char (x : Char) : ∀ (a a' b b' : Str), x ∉ a → x ∉ a' → a ++ x :: b = a' ++ x :: b' → a = a' ∧ b = b'
   | [], [], b, b', _, _, h => by simp at h; exact ⟨rfl, h⟩
   | [], c :: a', b, b', _, h', h => by
     simp at h
@@ -16,8 +16,49 @@ theorem split_at_slash : ∀ (a a' b b' : Str), '/' ∉ a → '/' ∉ a' → a +
   | c :: a, c' :: a', b, b', ha, ha', h => by
     simp only [List.cons_append, List.cons.injEq] at h
     obtain ⟨hc, ht⟩ := h
-    have := split_at_slash a a' b b' (fun hm => ha (List.mem_cons_of_mem _ hm)) (fun hm => ha' (List.mem_cons_of_mem _ hm)) ht
+    have := split_at_char x a a' b b' (fun hm => ha (List.mem_cons_of_mem _ hm)) (fun hm => ha' (List.mem_cons_of_mem _ hm)) ht
     exact ⟨by rw [hc, this.1], this.2⟩
+
+theorem split_at_slash (a a' b b' : Str) (h₁ : '/' ∉ a) (h₂ : '/' ∉ a') (h : a ++ '/' :: b = a' ++ '/' :: b') : a = a' ∧ b = b' :=
+  split_at_char '/' a a' b b' h₁ h₂ h
+
+/-! ### job directories -/
+
+/-- the token can be read back from the directory name: it is everything after the last `-` (tokens are alphanumeric) -/
+theorem jobDirname_token (n₁ n₂ : Option Str) (t₁ t₂ : Str) (h₁ : '-' ∉ t₁) (h₂ : '-' ∉ t₂)
+    (h : jobDirname n₁ t₁ = jobDirname n₂ t₂) : t₁ = t₂ := by
+  cases n₁ with
+  | none =>
+    cases n₂ with
+    | none => exact h
+    | some m =>
+      simp only [jobDirname] at h
+      exact absurd (by rw [h]; simp) h₁
+  | some m₁ =>
+    cases n₂ with
+    | none =>
+      simp only [jobDirname] at h
+      exact absurd (by rw [← h]; simp) h₂
+    | some m₂ =>
+      simp only [jobDirname, List.append_assoc, List.singleton_append] at h
+      have hr := congrArg List.reverse h
+      simp only [List.reverse_append, List.reverse_cons, List.append_assoc, List.singleton_append] at hr
+      have := split_at_char '-' t₁.reverse t₂.reverse _ _ (by simpa using h₁) (by simpa using h₂) hr
+      simpa using congrArg List.reverse this.1
+
+theorem safeStr_no_slash (s : Str) : '/' ∉ safeStr s := by
+  intro h
+  obtain ⟨c, _, hc⟩ := List.mem_map.mp h
+  split at hc
+  · next hal => rw [hc] at hal; simp at hal
+  · cases hc
+
+theorem jobDirname_no_slash (n : Option Str) (t : Str) (ht : '/' ∉ t) : '/' ∉ jobDirname n t := by
+  cases n with
+  | none => exact ht
+  | some m =>
+    simp only [jobDirname, List.append_assoc, List.mem_append, List.mem_singleton, not_or]
+    exact ⟨fun h => safeStr_no_slash m (List.mem_of_mem_take h), by decide, ht⟩
 
 /-! ### the tokenizer -/
 
